@@ -3,7 +3,7 @@
 From Coq Require Extraction.
 From Coq Require Import ExtrOcamlBasic.
 From Coq Require Import List NArith ZArith.
-From BB Require Import Ebnf Viable Chars Lexer G4Data Syntax Parser Graph Values Eval Loader.
+From BB Require Import Ebnf Viable Chars Lexer G4Data Syntax Parser Graph Values Eval Loader Serialize Skeleton.
 
 Definition bb_lex (w:list N) (K F:nat) : option (list token) := lex lex_g lex_rules w K F.
 Definition bb_recognise (toks:list nat) (K F:nat) : option bool :=
@@ -25,8 +25,20 @@ Definition bb_instantiate (fs:list (str * list N)) (cwd:str) (w:list N) (sg:list
   | Unspec => Unspec
   end.
 
+(* skeleton of the script the model serialiser writes for the program denoted by [w], and of a parsed text *)
+Definition bb_ser_skel (cwd:str) (w:list N) : option (list str) :=
+  match bb_loads nil cwd w with
+  | Ok p => option_map script_skel (ser_script p)
+  | _ => None
+  end.
+Definition bb_text_skel (w:list N) : option (list str) :=
+  match front lex_g lex_rules (with_final_newline w) with
+  | Ok sc => Some (script_skel sc)
+  | _ => None
+  end.
+
 (* is the token sequence (without EOF) a prefix of a sentence of `start`? *)
 Definition bb_viable (toks:list nat) (K F:nat) : option bool :=
   viable nat nat Nat.eqb pg toks K F (Ref start_rule).
 
-Extraction "bbmodel.ml" bb_lex bb_recognise bb_viable bb_parse bb_loads bb_load bb_instantiate edges nodes.
+Extraction "bbmodel.ml" bb_lex bb_recognise bb_viable bb_parse bb_loads bb_load bb_instantiate bb_ser_skel bb_text_skel edges nodes.
